@@ -801,7 +801,9 @@ def cli_stream(ck, pki, devices, scratch):
         if c["mode"] == "enc" and not c["nonce"]:
             c["nonce"] = bytes(rng.getrandbits(8) for _ in range(13))
         if c["mode"] != "plain":
-            c["img_slot"] = rng.choice([2, 4])
+            c["img_slot"] = rng.choice([2, 4])       # values the YAML schema enumerates
+        if c["mode"] == "enc":
+            c["key_slot"] = rng.choice([0, 1, 2])    # schema: SecretKey_TargetIndex <0..3>, Decrypt_VerifyIndex <0,1,2,4>
         fmt = "bd" if done % 2 == 0 else "yaml"
         wd = os.path.join(scratch, f"cli{done}")
         cfg = make_config(c, pki, wd)
